@@ -280,8 +280,11 @@ def check_centroid(case, ctx):
     (ny, nx), (iy, ix), dx = case['shape'], case['at'], case['dx']
     ctx.nt(ny % 2 == 1 or nx % 2 == 1)
     ctx.label('%s,%s' % ('eo'[ny % 2], 'eo'[nx % 2]))
-    d = np.zeros((ny, nx))
-    d[iy, ix] = 3.0
+    # camera frames are integer typed: a bright source in a uint8 / uint16 / int16 / int32 frame as well as a float one
+    dt, val = [('float64', 3.0), ('uint16', 60000), ('uint8', 250), ('int16', 30000), ('float32', 3.0), ('int32', 2**31 - 5)][(iy * 7 + ix * 3 + ny + nx) % 6]
+    ctx.label('dtype:' + dt)
+    d = np.zeros((ny, nx), dtype=dt)
+    d[iy, ix] = val
     c = ctx.call(centroid, d, dx)
     ctx.require(len(c) == 2, 'centroid:len', 'centroid should return 2 values')
     want = ((iy - ny // 2) * dx, (ix - nx // 2) * dx)
@@ -294,12 +297,13 @@ def check_centroid(case, ctx):
 
 def strat_centroid2(tier):
     N = {'quick': 12, 'thorough': 40}[tier]
-    ax = U.axis_len(N)
+    ax = st.one_of(U.axis_len(N), st.sampled_from([200, 301, 640]))      # a few frame-sized arrays (index * count overflow needs large indices)
     return st.tuples(ax, ax).flatmap(lambda s: st.fixed_dictionaries({
         'shape': st.just(list(s)),
         'p1': st.tuples(st.integers(0, s[0] - 1), st.integers(0, s[1] - 1)).map(list),
         'p2': st.tuples(st.integers(0, s[0] - 1), st.integers(0, s[1] - 1)).map(list),
-        'w1': st.integers(1, 9), 'w2': st.integers(0, 9), 'dx': st.sampled_from([1.0, 0.5, 0.125, 3.0])}))
+        'w1': st.integers(1, 9), 'w2': st.integers(0, 9), 'dx': st.sampled_from([1.0, 0.5, 0.125, 3.0]),
+        'dtype': st.sampled_from(['float64', 'float64', 'uint16', 'uint8', 'int32'])}))
 
 
 def check_centroid2(case, ctx):
@@ -307,9 +311,12 @@ def check_centroid2(case, ctx):
     from prysm.psf import centroid
     (ny, nx), p1, p2, w1, w2, dx = case['shape'], case['p1'], case['p2'], case['w1'], case['w2'], case['dx']
     ctx.nt(ny % 2 == 1 or nx % 2 == 1)
-    d = np.zeros((ny, nx))
-    d[tuple(p1)] += w1
-    d[tuple(p2)] += w2
+    dt = case.get('dtype', 'float64')
+    scale = {'float64': 1, 'uint16': 7000, 'uint8': 14, 'int32': 10**8}[dt]      # bright frames: index * count exceeds the dtype's range
+    ctx.label('dtype:' + dt)
+    d = np.zeros((ny, nx), dtype=dt)
+    d[tuple(p1)] += w1 * scale
+    d[tuple(p2)] += w2 * scale
     c = ctx.call(centroid, d, dx)
     W = w1 + w2
     want = [((p1[k] * w1 + p2[k] * w2) / W - (ny, nx)[k] // 2) * dx for k in (0, 1)]
@@ -360,6 +367,54 @@ def check_fresh(case, ctx):
         ctx.require(np.asarray(rd.x)[0, shape[1] // 2] == 0 and np.asarray(rd.y)[shape[0] // 2, 0] == 0, 'RichData:zero', 'no exact zero at n//2')
 
 
+
+# ---- slices follow the current coordinates ---------------------------------------------------------------------
+def strat_slices_hist(tier):
+    ax = U.axis_len({'quick': 16, 'thorough': 40}[tier], 3)
+    mv = st.integers(-3, 3)
+    return st.fixed_dictionaries({'shape': st.tuples(ax, ax).map(list), 'dx': st.sampled_from([1.0, 0.5, 0.2]),
+                                  'moves': st.lists(st.tuples(st.sampled_from(['shift-xy', 'rescale', 'read-slices']), mv, mv).map(list), min_size=1, max_size=5),
+                                  'twosided': st.booleans()})
+
+
+def check_slices_hist(case, ctx):
+    """after the coordinates of a data set are reassigned (documented setters RichData.x / .y), slices() passes through the sample where the *current* coordinates are zero, whatever was asked before."""
+    from prysm._richdata import RichData
+    ny, nx = case['shape']
+    dx = case['dx']
+    data = _marker((ny, nx))
+    rd = RichData(data, dx, 0.5)
+    ox, oy = nx // 2, ny // 2            # model: index of the origin sample
+    ctx.nt(True)
+    asked = False
+    for kind, a, b in case['moves']:
+        if kind == 'read-slices':
+            ctx.call(rd.slices, case['twosided'])
+            asked = True
+            continue
+        if kind == 'shift-xy':
+            nox = min(max(ox + a, 0), nx - 1)
+            noy = min(max(oy + b, 0), ny - 1)
+            rd.x = np.broadcast_to((np.arange(nx) - nox) * dx, (ny, nx)).copy()
+            rd.y = np.broadcast_to(((np.arange(ny) - noy) * dx)[:, None], (ny, nx)).copy()
+            ox, oy = nox, noy
+        else:
+            dx = dx * (1.5 if a >= 0 else 0.5)
+            rd.dx = dx
+            rd.x = np.broadcast_to((np.arange(nx) - ox) * dx, (ny, nx)).copy()
+            rd.y = np.broadcast_to(((np.arange(ny) - oy) * dx)[:, None], (ny, nx)).copy()
+        sl = ctx.call(rd.slices, True)
+        ux, sx = sl.x
+        uy, sy = sl.y
+        what = 'after %s (origin sample now [%d,%d] of %s%s)' % (kind, oy, ox, [ny, nx], ', slices() had been called before' if asked else '')
+        U.check_equal(sx, data[oy, :], 'slices:stale-origin:x', 'x slice is not the row through the current origin ' + what)
+        U.check_equal(sy, data[:, ox], 'slices:stale-origin:y', 'y slice is not the column through the current origin ' + what)
+        U.check_close(ux, (np.arange(nx) - ox) * dx, 1e-12, 'slices:stale-coords', 'x slice coordinates ' + what)
+        U.check_close(uy, (np.arange(ny) - oy) * dx, 1e-12, 'slices:stale-coords', 'y slice coordinates ' + what)
+        asked = True
+    ctx.label('moves:%d' % len(case['moves']))
+
+
 CLAUSES = [
     EnumClause('pad_axis', enum_pad, check_pad_axis),
     EnumClause('crop_axis', enum_crop, check_crop_axis),
@@ -368,4 +423,5 @@ CLAUSES = [
     EnumClause('centroid', enum_centroid, check_centroid),
     HypClause('centroid2', strat_centroid2, check_centroid2, examples={'quick': 300, 'thorough': 3000}),
     HypClause('grids_not_aliased', strat_fresh, check_fresh, examples={'quick': 300, 'thorough': 2000}),
+    HypClause('slices_follow_coordinates', strat_slices_hist, check_slices_hist, examples={'quick': 300, 'thorough': 2000}),
 ]
